@@ -34,7 +34,9 @@ RULE = (
     "name, only one of which has the compared field, in both orders, through match() of one long-lived and of fresh "
     "selector objects (compiled and interpreted), RecordReader and rdump; same oracle.  Part D: the same for sequences "
     "of GroupedRecord objects of varying composition (a group lacking the field first, then groups having it, and the "
-    "other order) over the binary stream formats.  A case is non-trivial when at least one engine "
+    "other order) over the binary stream formats.  Part E: plain JSON-lines sources (hand-written objects, each a record "
+    "type of its own keys; the compared key present in some objects only, both orders) through RecordReader and rdump.  "
+    "A case is non-trivial when at least one engine "
     "evaluation / one stream with records having and lacking the field was run; distinct = distinct (expression, "
     "record or stream seed, access path)."
 )
@@ -93,11 +95,14 @@ DERIVED = [
     ("arith", "r.zz & 1"), ("arith", "r.zz | 1"), ("arith", "r.n + r.zz"), ("arith", "r.zz + r.nope"), ("arith", "(r.zz + 1) * 2"),
     ("arith", "r.s + r.zz"), ("arith", "r.zz.size + 1"),
     ("attr", "r.zz.year"), ("attr", "r.zz.a.b"), ("attr", "r.zz.filename"), ("attr", "r.zz.a.b.c.d"),
+    # links with the reserved single-underscore names (metadata of a nested record field some record types lack)
+    ("attr", "r.zz._source"), ("attr", "r.zz._generated.year"), ("attr", "r.zz._version"), ("attr", "r.zz._classification"),
+    ("attr", "r.zz.sub._source"), ("attr", "r.zz._desc.name"), ("attr", "r.zz.sub._generated.year + 1"),
     # %-formatting: str / bytes never defer to the right operand's reflected method
     ("format", "'%s' % r.zz"), ("format", "'%d' % r.zz"), ("format", "b'%s' % r.zz"), ("format", "'%s' % r.zz.a"), ("format", "'port %s' % (r.zz + 1)"),
     ("format-tuple", "'%s-%s' % (r.zz, 1)"), ("format-tuple", "'%s-%s' % (r.n, r.zz)"), ("format-tuple", "'%d' % (r.zz,)"),
 ]
-DERIVED_OTHERS = ["0", "1", "5", "'x'", "None", "r.n", "[0]", "False", "'443'", "b'x'", "['beta', 'x']"]
+DERIVED_OTHERS = ["0", "1", "5", "'x'", "None", "r.n", "[0]", "False", "'443'", "b'x'", "['beta', 'x']", "2000", "['a']"]
 
 HELPERS = [
     "field_contains(r, %s, %s)", "field_contains(r, %s, %s, nocase=False)", "field_contains(r, %s, %s, word_boundary=True)",
@@ -214,6 +219,18 @@ SAME_TEMPLATES = ["r.k > 1", "r.k == 2", "r.k != 2", "r.k <= 3", "2 < r.k", "r.k
 SAME_VIAS = ("match-one-compiled", "match-fresh-compiled", "match-one-interpreted", "reader-text", "reader-compiled", "rdump", "rdump-n")
 
 
+# plain JSON lines: every object is a record type of its own keys
+PLAIN_TEMPLATES = [
+    ("r.user == 'root'", "user"), ("r.user != 'root'", "user"), ("r.user == None", "user"), ("r.user != None", "user"), ("r.user < 'm'", "user"),
+    ("r.user <= 'bob'", "user"), ("r.user > 'm'", "user"), ("r.user >= 'root'", "user"), ("'m' > r.user", "user"),
+    ("r.user in ['root', 'bob']", "user"), ("'oo' in r.user", "user"), ("not (r.user == 'root')", None), ("r.pid > 10", "pid"),
+    ("r.pid <= 10", "pid"), ("r.pid != 5", "pid"), ("r.pid == 5", "pid"), ("5 < r.pid", "pid"), ("r.pid in [5, 443]", "pid"),
+    ("r.load >= 0.5", "load"), ("r.load < 0.5", "load"), ("r.pid + 1 > 10", "pid"), ("r.user == 'root' or r.pid > 10", None),
+    ("r.user != 'root' and r.pid != 5", None), ("field_equals(r, ['user', 'host'], ['ROOT', 'alpha'])", None),
+]
+PLAIN_VIAS = ("reader-text", "reader-compiled", "rdump", "rdump-n")
+
+
 GROUPED_EXTRA = ["r.f >= 1.5", "r.t == 'Hello'", "'ell' in r.t", "r.k > 1 and r.f > 1", "Type.varint == 2", "has_field(r, 'k')"]
 
 
@@ -275,6 +292,18 @@ def generate(ctx):
                         if ctx.mine(idx):
                             yield {"k": "same-name", "expr": expr, "ti": ti, "order": order, "via": via, "fmt": fmt, "s": sseed,
                                    "n": ctx.scale(10, 24)}
+                        idx += 1
+    # ---- part E: plain JSON lines (heterogeneous objects, each of its own keys), both orders
+    for si in range(ctx.scale(1, 4)):
+        sseed = subseed("c08", ctx.seed, "plain-json", si)
+        for order in ("with-field-first", "without-field-first"):
+            for ti, (expr, fkey) in enumerate(PLAIN_TEMPLATES):
+                for vi, via in enumerate(PLAIN_VIAS):
+                    flavours = [("hand-written", "library-writer")[(ti + vi + si) % 2]] if ctx.quick else ["hand-written", "library-writer"]
+                    for flavour in flavours:
+                        if ctx.mine(idx):
+                            yield {"k": "plain-json", "expr": expr, "field": fkey, "ti": ti, "order": order, "via": via, "flavour": flavour,
+                                   "fmt": ("jsonl", "json")[(ti + si) % 2], "s": sseed, "n": ctx.scale(10, 24)}
                         idx += 1
     # ---- part D: grouped records of different composition (all GroupedRecord objects share one class)
     for si in range(ctx.scale(1, 4)):
@@ -701,15 +730,60 @@ def build_grouped(seed, order, n):
     return out
 
 
+def build_plain_json(seed, order, n, fkey):
+    """-> (list of dicts as written, list of reference records).  Objects carry `seq` plus a random subset of
+    user / pid / load / host; the first two objects have / lack the compared key per `order`."""
+    from flow.record import RecordDescriptor
+
+    rng = random.Random(seed)
+    fkey = fkey or "user"
+    pools = {"user": ["root", "bob", "alice", "Root", "zed", ""], "pid": [1, 5, 10, 11, 443, 70000], "load": [0.0, 0.25, 0.5, 1.5, 12.0],
+             "host": ["alpha", "beta", "h-1"]}
+    types = {"seq": "varint", "user": "string", "pid": "varint", "load": "float", "host": "string"}
+    first = [True, False] if order == "with-field-first" else [False, True]
+    objs, recs = [], []
+    for i in range(n):
+        keys = [k for k in ("user", "pid", "load", "host") if k != fkey and rng.random() < 0.5]
+        if first[i] if i < 2 else rng.random() < 0.5:
+            keys.append(fkey)
+        rng.shuffle(keys)
+        obj = {"seq": i}
+        for k in keys:
+            obj[k] = rng.choice(pools[k])
+        if rng.random() < 0.3:
+            obj = dict(reversed(list(obj.items())))   # key order varies too
+        objs.append(obj)
+        recs.append(RecordDescriptor("json/record", [(types[k], k) for k in obj])(**obj))
+    return objs, recs
+
+
 def exec_same_name(ctx, case):
+    import json
+
     from flow.record import RecordWriter
     from flow.record.selector import CompiledSelector, Selector
 
     expr, via, order, fmt = case["expr"], case["via"], case["order"], case["fmt"]
     ti = case.get("ti", 0)
     grouped = case["k"] == "grouped"
-    key = (case["k"], case["s"], order, case["n"], fmt, ti)
+    flavour = case.get("flavour", "hand-written")
+    key = (case["k"], case["s"], order, case["n"], fmt, ti, flavour)
     cache = ctx.state["streams"]
+    if key not in cache and case["k"] == "plain-json":
+        objs, records = build_plain_json(case["s"] + ti, order, case["n"], case.get("field"))
+        path = os.path.join(ctx.state["tmp"], "plain-%x-%s-%d-%d-%s.%s" % (case["s"], order, case["n"], ti, flavour[:4], fmt))
+        if flavour == "library-writer":
+            # the library's own plain output: JSON lines without descriptors
+            w = RecordWriter("jsonfile://%s?descriptors=false" % path)
+            for r in records:
+                w.write(r)
+            w.flush()
+            w.close()
+        else:
+            with open(path, "w") as f:
+                for o in objs:
+                    f.write(json.dumps(o) + "\n")
+        cache[key] = (path, records)
     if key not in cache:
         records = build_grouped(case["s"], order, case["n"]) if grouped else build_same(case["s"], order, case["n"], ti)
         path = os.path.join(ctx.state["tmp"], "%s-%x-%s-%d-%d.%s" % (case["k"], case["s"], order, case["n"], ti, fmt))
@@ -721,8 +795,8 @@ def exec_same_name(ctx, case):
         cache[key] = (path, records)
     path, records = cache[key]
     try:
-        if expr == "r.k + 1 > 2":
-            keep = ["k" in r._desc.fields and ref_match(expr, r) for r in records]
+        if expr in ("r.k + 1 > 2", "r.pid + 1 > 10"):
+            keep = [expr[2:].split(" ")[0] in r._desc.fields and ref_match(expr, r) for r in records]
         else:
             keep = [ref_match(expr, r, lenient=True) for r in records]
     except (Undefined, Unsupported):
@@ -750,6 +824,8 @@ def exec_same_name(ctx, case):
     ctx.event(what + " sequences")
     ctx.event(what + ":" + via)
     ctx.cell(what, order, via)
+    if what == "plain-json":
+        ctx.event("plain-json:" + flavour)
     if any(keep) and not all(keep):
         ctx.nontrivial(what, expr, order, case["s"], via, fmt)
     ctx.sample({"selector": expr, "order": order, "via": via, "in": len(records), "out": len(actual)}, kind=what + ":" + order + ":" + via)
@@ -759,6 +835,7 @@ def exec_same_name(ctx, case):
     ctx.event("VIOLATION")
     ctx.violation(None, "%s are not filtered like the reference filter (%s)"
                   % ("grouped records of different composition (some lack the field)" if grouped
+                     else "plain JSON objects of different keys (some lack the key)" if case["k"] == "plain-json"
                      else "records of two same-name descriptors (one lacks the field)",
                      "raised / rest lost" if (err or swallowed) else "different records"),
                   detail={"selector": expr, "order": order, "via": via, "format": fmt, "expected_out": expected, "actual_out": actual,
@@ -768,7 +845,7 @@ def exec_same_name(ctx, case):
 
 def execute(ctx, case):
     k = case["k"]
-    if k in ("same-name", "grouped"):
+    if k in ("same-name", "grouped", "plain-json"):
         return exec_same_name(ctx, case)
     if k == "table":
         exec_table(ctx, case)
@@ -786,6 +863,7 @@ def finish(ctx):
                 "an engine was never evaluated in shard %d" % ctx.shard)
     ctx.require(ctx.events.get("streams", 0) > 0, "no stream was filtered in shard %d" % ctx.shard)
     ctx.require(ctx.events.get("same-name sequences", 0) > 0, "no same-name sequence was filtered in shard %d" % ctx.shard)
+    ctx.require(ctx.events.get("plain-json sequences", 0) > 0, "no plain JSON-lines source was filtered in shard %d" % ctx.shard)
     ctx.require(ctx.events.get("grouped sequences", 0) > 0, "no grouped-record sequence was filtered in shard %d" % ctx.shard)
     for q in ("flow.record.selector:NoneObject.__eq__", "flow.record.selector:NoneObject.__le__", "flow.record.selector:NoneObject.__contains__",
               "flow.record.selector:WrappedRecord.__getattr__", "flow.record.selector:RecordContextMatcher._eval"):
